@@ -52,6 +52,8 @@ type G struct {
 	DS abs.Schema
 	R  *rand.Rand
 	P  Params
+	// StrVocab, when set, replaces the vocabulary of string leaves (not keys)
+	StrVocab []string
 }
 
 // Hints: conforming values for leaves whose type is restricted (by schema path).
@@ -84,6 +86,9 @@ func (g *G) value(n *abs.SNode) string {
 	v := Vocab[n.Type]
 	if len(v) == 0 {
 		v = Vocab["string"]
+	}
+	if n.Type == "string" && len(g.StrVocab) > 0 {
+		v = g.StrVocab
 	}
 	return v[g.R.Intn(len(v))]
 }
@@ -289,4 +294,23 @@ func WithAncestors(ds abs.Schema, s *abs.Tree, at abs.Path) *abs.Tree {
 		}
 	}
 	return out.Canon()
+}
+
+// StringClasses: one representative string per character class that matters to text
+// codecs (every C0 control character individually, quotes, backslash, slash, markup
+// characters, DEL, line/paragraph separators, BMP and astral code points, whitespace
+// at the edges, CDATA terminator), alone and embedded.
+func StringClasses() []string {
+	var cls []string
+	for c := 1; c < 0x20; c++ {
+		cls = append(cls, string(rune(c)))
+	}
+	cls = append(cls, "\"", "\\", "/", "<", ">", "&", "'", "\x7f", "\u2028", "\u2029", "\u00e9", "\u4e2d", "\U0001F600",
+		" ", "  ", "]]>", "<!--", "&amp;", "%", "+", "\ufeff", "\u0085")
+	var out []string
+	for _, c := range cls {
+		out = append(out, c, "a"+c, c+"b", "a"+c+"b", c+c)
+	}
+	out = append(out, " lead", "trail ", " both ", "in  ner", "tab\tin", "nl\nin", "a\r\nb")
+	return out
 }
